@@ -109,11 +109,11 @@ def run(pid, tier, seed, gate, replay=None):
         C.build_harness(["conc"])
         rrng = random.Random(seed + 11)
         rs = []
-        for _ in range(60 if tier == "thorough" else 12):
+        for _ in range(60 if tier == "thorough" else 16):
             # capacity well above the key set: nothing is ever evicted, so a key that an insert has written stays in memory
             # (the rule below - a fetched value is as of the invocation of its fetch closure - is sound only then: with
             # evictions, an insert made between the closure call and the lookup can be evicted again before the lookup)
-            lines = [f"cfg algo={rrng.choice(CC.ALGOS)} shards={rrng.choice([1, 2])} cap=64 rounds={80 if tier == 'thorough' else 40} "
+            lines = [f"cfg algo={rrng.choice(CC.ALGOS)} shards={rrng.choice([1, 2])} cap=64 rounds={600 if tier == 'thorough' else 300} "
                      f"jitter={rrng.randrange(1, 10**6)} reent=0 timeout=60"]
             for t in range(rrng.choice([2, 3])):
                 for _ in range(rrng.randrange(3, 8)):
